@@ -918,7 +918,8 @@ def frames_check(ctx, relevant_kinds, monitor, n_quick, n_thorough, deps, nontri
                 sigs.add(mon[1])
                 full = c["hdr"] + script_of(c) + ["end"]
                 small = full
-                if not ctx.replay and len(sigs) <= 2:
+                known_sig = any(k.get("property") == ctx.prop and k.get("signature") == mon[1] for k in ctx.known.get("open", []))
+                if not ctx.replay and len(sigs) <= 2 and not known_sig:   # a recorded finding has its witness already
                     try:
                         small = shrink_frames(ctx, run["family"], full, mon[1], monitor, relevant_kinds)
                     except Exception as e:  # shrinking is a convenience: never let it hide the violation
